@@ -242,4 +242,186 @@ theorem pieces_eq_range (dfs : List TS) (ub : List Int) (hlen : dfs.length = ub.
     simp [hkf, List.getD_eq_getElem?_getD, hk]
 
 
+/-! ### df_unslice -/
+
+theorem foldl_max_width (P : List Frame) (w : Nat) (hle : ∀ f ∈ P, f.width ≤ w) :
+    ∀ a, a ≤ w → (a = w ∨ ∃ f ∈ P, f.width = w) → P.foldl (fun m f => max m f.width) a = w := by
+  induction P with
+  | nil => intro a _ h; rcases h with h | ⟨f, hf, _⟩
+           · exact h
+           · cases hf
+  | cons f P ih =>
+    intro a ha h
+    simp only [List.foldl_cons]
+    have hfw := hle f (by simp)
+    apply ih (fun g hg => hle g (by simp [hg])) _ (by omega)
+    rcases h with h | ⟨g, hg, hgw⟩
+    · left; omega
+    · rcases List.mem_cons.mp hg with rfl | hg'
+      · left; omega
+      · right; exact ⟨g, hg', hgw⟩
+
+/-- a sorted series is a function of time -/
+theorem get_eq_some_iff {s : TS} (hs : s.Sorted) (t x : Int) : s.get t = some x ↔ (t, some x) ∈ s := by
+  have hp : s.Pairwise (fun a b => a.1 < b.1) := by simpa [TS.Sorted, TS.index, List.pairwise_map] using hs
+  unfold TS.get
+  constructor
+  · intro h
+    cases hf : s.find? (·.1 == t) with
+    | none => simp [hf] at h
+    | some p =>
+      rw [hf] at h
+      have h1 := List.find?_some hf
+      have h2 := List.mem_of_find?_eq_some hf
+      simp only [beq_iff_eq] at h1
+      simp only [Option.bind_some] at h
+      have : p = (t, some x) := by cases p; simp_all
+      rw [← this]; exact h2
+  · intro h
+    cases hf : s.find? (·.1 == t) with
+    | none =>
+      rw [List.find?_eq_none] at hf
+      exact absurd (by simp) (hf _ h)
+    | some p =>
+      have h1 := List.find?_some hf
+      have h2 := List.mem_of_find?_eq_some hf
+      simp only [beq_iff_eq] at h1
+      have := eq_of_time_eq hp h2 h (by simpa using h1)
+      simp [this]
+
+/-- two NaN-free series that hold the same values at `t` are read alike at `t` (the second one proper) -/
+theorem get_agree {A B : TS} (t : Int) (hA : ∀ p ∈ A, p.2.isSome) (hB : ∀ p ∈ B, p.2.isSome) (hs : B.Sorted)
+    (h : ∀ x, (t, some x) ∈ A ↔ (t, some x) ∈ B) : A.get t = B.get t ∧ (t ∈ A.index ↔ t ∈ B.index) := by
+  have hidx : ∀ (C : TS), (∀ p ∈ C, p.2.isSome) → (t ∈ C.index ↔ ∃ x, (t, some x) ∈ C) := by
+    intro C hC
+    simp only [TS.index, List.mem_map]
+    constructor
+    · rintro ⟨p, hp, rfl⟩
+      have := hC p hp
+      cases hv : p.2 with
+      | none => simp [hv] at this
+      | some x => exact ⟨x, by rw [← hv]; exact hp⟩
+    · rintro ⟨x, hx⟩; exact ⟨_, hx, rfl⟩
+  refine ⟨?_, by rw [hidx A hA, hidx B hB]; exact exists_congr h⟩
+  cases hb : B.get t with
+  | some x =>
+    have hm := (h x).mpr ((get_eq_some_iff hs t x).mp hb)
+    unfold TS.get
+    cases hf : A.find? (·.1 == t) with
+    | none => rw [List.find?_eq_none] at hf; exact absurd (by simp) (hf _ hm)
+    | some p =>
+      have h1 := List.find?_some hf
+      have h2 := List.mem_of_find?_eq_some hf
+      simp only [beq_iff_eq] at h1
+      have h3 := hA p h2
+      cases hv : p.2 with
+      | none => simp [hv] at h3
+      | some y =>
+        have : (t, some y) ∈ B := (h y).mp (by rw [← hv, ← h1]; exact h2)
+        have := (get_eq_some_iff hs t y).mpr this
+        rw [hb] at this
+        simp [hv, this]
+  | none =>
+    unfold TS.get
+    cases hf : A.find? (·.1 == t) with
+    | none => rfl
+    | some p =>
+      exfalso
+      have h1 := List.find?_some hf
+      have h2 := List.mem_of_find?_eq_some hf
+      simp only [beq_iff_eq] at h1
+      have h3 := hA p h2
+      cases hv : p.2 with
+      | none => simp [hv] at h3
+      | some y =>
+        have : (t, some y) ∈ B := (h y).mp (by rw [← hv, ← h1]; exact h2)
+        have := (get_eq_some_iff hs t y).mpr this
+        rw [hb] at this; cases this
+
+theorem mem_column {j : Nat} {rows : Rows (List (Option Int))} {t : Int} {v : Option Int} :
+    (t, v) ∈ column j rows ↔ ∃ vs, (t, vs) ∈ rows ∧ (vs[j]?).join = v := by
+  simp only [column, List.mem_map, Prod.mk.injEq]
+  constructor
+  · rintro ⟨r, hr, rfl, rfl⟩; exact ⟨r.2, hr, rfl⟩
+  · rintro ⟨vs, hr, rfl⟩; exact ⟨(t, vs), hr, rfl, rfl⟩
+
+theorem mem_take_drop {α} {l : List α} {i n : Nat} {x : α} :
+    x ∈ (l.drop i).take n ↔ ∃ j, j < n ∧ l[i + j]? = some x := by
+  rw [List.mem_iff_getElem?]
+  constructor
+  · rintro ⟨j, hj⟩
+    rw [List.getElem?_take] at hj
+    split at hj
+    · rw [List.getElem?_drop] at hj; exact ⟨j, by assumption, hj⟩
+    · cases hj
+  · rintro ⟨j, hj, h⟩
+    exact ⟨j, by rw [List.getElem?_take, if_pos hj, List.getElem?_drop]; exact h⟩
+
+/-- the slices `df_unslice` cuts -/
+def slicesOf (F : Frame) (ub : List Int) : List (Rows (List (Option Int))) :=
+  ((Bound.none :: ub.dropLast.map Bound.date).zip ub).map fun x =>
+    F.rows.filter fun r => inWindow false true x.1 (.date x.2) r.1
+
+/-- what `df_unslice` hands to the bounds: column `j` of slice `i` to bound `i+j` -/
+def rsOf (F : Frame) (ub : List Int) : List (Int × TS) :=
+  (slicesOf F ub).zipIdx.flatMap fun x =>
+    (((ub.drop x.2).take F.width).zipIdx).map fun y => (y.1, column y.2 x.1)
+
+theorem unslice_eq (F : Frame) (ub : List Int) :
+    unslice F ub = .ok ((((rsOf F ub).map (·.1)).eraseDups.mergeSort (fun a b => decide (a ≤ b))).map fun u =>
+      (u, nona (((rsOf F ub).filter (·.1 == u)).flatMap (·.2)))) := by
+  have hm : ((Bound.none :: ub.dropLast.map Bound.date).zip ub).mapM
+      (fun x => sliceWrap F.rows x.1 (.date x.2) (some ['(', ']'])) = .ok (slicesOf F ub) := by
+    apply mapM_ok
+    intro x
+    have : sliceWrap F.rows x.1 (.date x.2) (some ['(', ']']) = sliceOne F.rows x.1 (.date x.2) (some ['(', ']']) := by
+      unfold sliceWrap; split <;> first | rfl | (rename_i h1 h2; cases h2)
+    rw [this, sliceOne_eq _ _ _ _ false true rfl]
+  unfold unslice
+  simp only [bind, Except.bind, pure, Except.pure]
+  have hm' : ((Bound.none :: ub.dropLast.map Bound.date).zip ub).mapM
+      (fun (x : Bound × Int) => match x with | (l, u) => sliceWrap F.rows l (.date u) (some ['(', ']'])) = .ok (slicesOf F ub) := hm
+  rw [hm']
+  rfl
+
+theorem slicesOf_getElem? (F : Frame) (ub : List Int) (i : Nat) (hi : i < ub.length) :
+    (slicesOf F ub)[i]? = some (F.rows.filter fun r => inWindow false true (loBound ub i) (.date ub[i]) r.1) := by
+  have hl : i < ((Bound.none :: ub.dropLast.map Bound.date).zip ub).length := by
+    cases ub with
+    | nil => cases hi
+    | cons a ub => simp at hi ⊢; omega
+  simp only [slicesOf, List.getElem?_map, List.getElem?_eq_getElem hl, Option.map_some, List.getElem_zip]
+  congr 2
+  funext r
+  cases i with
+  | zero => simp [loBound]
+  | succ k =>
+    have hk : k < ub.length := by omega
+    simp [loBound, List.getElem_dropLast, List.getD_eq_getElem?_getD, hk]
+
+theorem slicesOf_length (F : Frame) (ub : List Int) : (slicesOf F ub).length = ub.length := by
+  cases ub with
+  | nil => rfl
+  | cons a ub => simp [slicesOf]
+
+theorem mem_rsOf {F : Frame} {ub : List Int} {u : Int} {c : TS} :
+    (u, c) ∈ rsOf F ub ↔ ∃ i j, ∃ hi : i < ub.length, j < F.width ∧ ub[i + j]? = some u ∧
+      c = column j (F.rows.filter fun r => inWindow false true (loBound ub i) (.date ub[i]) r.1) := by
+  simp only [rsOf, List.mem_flatMap, List.mem_map, Prod.mk.injEq, Prod.exists, List.mem_zipIdx_iff_getElem?]
+  constructor
+  · rintro ⟨ts, i, hts, u', j, huj, rfl, rfl⟩
+    have hi : i < ub.length := by
+      rw [← slicesOf_length F ub]
+      exact (List.getElem?_eq_some_iff.mp hts).1
+    rw [slicesOf_getElem? F ub i hi] at hts
+    cases hts
+    rw [List.getElem?_take] at huj
+    split at huj
+    · rw [List.getElem?_drop] at huj
+      exact ⟨i, j, hi, by assumption, huj, rfl⟩
+    · cases huj
+  · rintro ⟨i, j, hi, hj, huj, rfl⟩
+    refine ⟨_, i, slicesOf_getElem? F ub i hi, u, j, ?_, rfl, rfl⟩
+    rw [List.getElem?_take, if_pos hj, List.getElem?_drop]; exact huj
+
 end Pyg.Slice
